@@ -83,6 +83,27 @@ Proof. exact ncp_roundtrip. Qed.
 Print Assumptions C01_ncp.
 
 (* well-formedness is not vacuous and the encoder picks the documented widths: concrete witnesses *)
+(* Unambiguity (a consequence of the round trips, stated for the outer layers): two well-formed messages, each followed by
+   anything, never share their bytes unless they are the same message followed by the same bytes; two well-formed CIP /
+   Connection Manager messages with the same bytes are the same message. *)
+Theorem C01_frame_unambiguous : forall a b t1 t2,
+  ok frame a -> ok frame b -> enc frame a ++ t1 = enc frame b ++ t2 -> a = b /\ t1 = t2.
+Proof. exact (fmt_unambiguous frame). Qed.
+Print Assumptions C01_frame_unambiguous.
+
+Theorem C01_epath_unambiguous : forall a b t1 t2,
+  ok epath a -> ok epath b -> enc epath a ++ t1 = enc epath b ++ t2 -> a = b /\ t1 = t2.
+Proof. exact (fmt_unambiguous epath). Qed.
+Print Assumptions C01_epath_unambiguous.
+
+Theorem C01_cip_injective : forall a b, eok cip a -> eok cip b -> eenc cip a = eenc cip b -> a = b.
+Proof. exact (fend_injective cip). Qed.
+Print Assumptions C01_cip_injective.
+
+Theorem C01_cm_injective : forall a b, eok cm a -> eok cm b -> eenc cm a = eenc cm b -> a = b.
+Proof. exact (fend_injective cm). Qed.
+Print Assumptions C01_cm_injective.
+
 Example C01_nonvacuous :
   enc epath [SClass 2; SInst 1; SSym [97; 98; 99]; SElem 70000; SPort 15 3; SPortA 2 [49; 46; 50]]
   = [13; 32; 2; 36; 1; 145; 3; 97; 98; 99; 0; 42; 0; 112; 17; 1; 0; 15; 15; 0; 3; 18; 3; 49; 46; 50; 0]
